@@ -244,6 +244,8 @@ func runC08(e *Engine, r *Report, tier string) {
 	r.Rule("R8", "an ERC-20 transfer / transferFrom that returns false is an error: the decoded boolean guards every success return (here or in the caller it is handed to)", 2, "decoders of transfer / transferFrom results")
 	r.Rule("R7", "the error of every leg (bank / ERC-20 value operation) of a conversion routine is propagated on every path", 8, "value operations of the conversion routines")
 	e.c08ExactPairLookup(r)
+	r.Rule("R10", "a search result is not compared so that position 0 counts as `not found` (alias / denom collision checks walk lists)", 1, "")
+	e.ruleSentinelMiscompare(r, "R10", "/x/erc20", "/x/crosschain")
 	{
 		nsites := 0
 		for _, fn := range e.Funcs {
